@@ -1,4 +1,7 @@
 import SJ.Drv.Mach
+import SJ.Spec.TextNorm
+import SJ.Spec.Recognise
+import SJ.Model.Ser
 import SJ.Spec.Canon
 namespace SJ.Drv.C20
 open SJ SJ.Drv SJ.Drv.Mach
@@ -19,16 +22,37 @@ def numtext : Handler := fun args impl =>
     | none => bad "hex"
   | _ => bad "arity"
 
-def stripWs (bs : Bytes) : Bytes := bs.filter fun b => !(Spec.Grammar.isWs b)
+/-- no float reaches a printer under `arbitrary_precision` (numbers are literals); `itoa` is never consulted either -/
+def extLit : Spec.Program.Ext := { itoa := Spec.Number.decimal, ryu64 := fun _ => [], ryu32 := fun _ => [] }
 
-/-- `reprint <cfg> <hex doc of arrays of numbers> => hex of to_vec(from_slice(doc))` -/
+/-- `reprint <cfg> <hex doc> => hex of to_vec(from_slice(doc))`.
+    model: `serCompact (ofValue (parseTop doc))`; spec (`c20_text_roundtrip`): with `t` the syntax tree the independent
+    recogniser finds, `keysInMapOrder` ⇒ the output is `normText t`, and with `spelledCanonically` too it is the input
+    minus insignificant whitespace (`Spec.TextNorm.stripWs`). -/
 def reprint : Handler := fun args impl =>
   match args with
-  | [_, h] =>
+  | [tag, h] =>
     match bytesOfHex h with
     | some bs =>
-      let e := hexField (stripWs bs)
-      { model := e, specs := if impl == e then [] else ["C20 parse-then-serialise changed more than whitespace"] }
+      let cfg := cfgOfTag tag
+      let env : Model.Machine.Env := { cfg := cfg, src := .slice, tgt := .value }
+      let model := match Model.Machine.parseTop env bs with
+        | .ok v => (match Model.Ser.serCompact extLit (Model.Ser.ofValue v) with
+                    | .ok bufs => hexField bufs.flatten
+                    | .error _ => "SERERR")
+        | o => showOutcome env bs o
+      let specs := match Spec.Recognise.recognise true bs with
+        | some t =>
+          if !cfg.ap then []
+          else if !Spec.TextNorm.keysInMapOrder cfg.po t then []
+          else
+            let e1 := hexField (Spec.TextNorm.normText t)
+            let s1 := if impl == e1 then [] else ["C20 parse-then-serialise is not the input's tokens in the input's order with every number literal verbatim"]
+            let s2 := if Spec.TextNorm.spelledCanonically t && impl != hexField (Spec.TextNorm.stripWs bs)
+                      then ["C20 parse-then-serialise changed more than whitespace"] else []
+            s1 ++ s2
+        | none => []
+      { model := model, specs := specs }
     | none => bad "hex"
   | _ => bad "arity"
 
